@@ -167,6 +167,21 @@ def segment_invariants(r, key_prefix, case, t, y, i0, i1, target, t0_first, y0_f
 
 
 # ------------------------------------------------------------------ C06 dense-output invariants
+def _array_queries(r, key_prefix, case, sol, qs, n, dtype, tol_rel):
+    """array-valued queries agree entry by entry with scalar ones, whatever the order of the entries: as given (grouped by fraction), sorted there-and-back
+    (first and last entry in the same piece), and a closed loop that starts and ends at an interior point of a middle piece"""
+    srt = np.sort(qs)
+    mid = srt[len(srt) // 2]
+    for label, arr_q in (("as-given", qs), ("there-and-back", np.concatenate([srt, srt[::-1]])), ("closed-loop", np.concatenate([[mid], qs, [mid]]))):
+        arr = np.asarray(sol(arr_q), dtype=LD)
+        sc = np.stack([np.asarray(sol(q), dtype=LD) for q in arr_q])
+        if arr.shape != sc.shape or np.max(np.abs(arr - sc)) > tol_rel * max(1.0, float(np.max(np.abs(sc.astype(np.float64))))):
+            r.v(key_prefix + "/array-query", "array queries agree with scalar queries", dict(case, order=label),
+                observed=dict(max_diff=float(np.max(np.abs(arr - sc))) if arr.shape == sc.shape else "shape"), expected="equal")
+            return False
+    return True
+
+
 def dense_invariants(r, key_prefix, case, a, f, dtype, richardson=False, ulps=16, rtol_rich=None, consts=None):
     """Invariants of DESIGN 4/C06 on system `a` whose rhs is f(t, y).  Returns True when all hold."""
     consts = consts or {}
@@ -245,11 +260,7 @@ def dense_invariants(r, key_prefix, case, a, f, dtype, richardson=False, ulps=16
                     observed=dict(t=float(T[k]), got=got.astype(float), y=Y[k].astype(float)), expected="equal at rounding level")
                 return False
         qs = np.concatenate([T[:-1] + (T[1:] - T[:-1]) * dtype(fr) for fr in (0.25, 0.75)] + [T])
-        arr = np.asarray(sol(qs), dtype=LD)
-        sc = np.stack([np.asarray(sol(q), dtype=LD) for q in qs])
-        if arr.shape != sc.shape or np.max(np.abs(arr - sc)) > ulps * e * max(1.0, float(np.max(np.abs(sc.astype(np.float64))))):
-            r.v(key_prefix + "/array-query", "array queries agree with scalar queries", case,
-                observed=dict(max_diff=float(np.max(np.abs(arr - sc))) if arr.shape == sc.shape else "shape"), expected="equal")
+        if not _array_queries(r, key_prefix, case, sol, qs, n, dtype, ulps * e):
             return False
     else:
         # Richardson wrappers: pieces come from sub-steps; they must chain continuously and reproduce the rows within tolerance
@@ -261,6 +272,9 @@ def dense_invariants(r, key_prefix, case, a, f, dtype, richardson=False, ulps=16
                 r.v(key_prefix + "/at-grid-richardson", "solution at a recorded time reproduces the recorded state to tolerance", dict(case, row=k),
                     observed=dict(t=float(T[k]), err=float(np.max(np.abs(got - Y[k]))), tol=tolr * ys), expected="<= tol")
                 return False
+        qs = np.concatenate([T[:-1] + (T[1:] - T[:-1]) * dtype(fr) for fr in (0.25, 0.75)] + [T])
+        if not _array_queries(r, key_prefix, case, sol, qs, n, dtype, ulps * e):
+            return False
         if len(pieces) % (n - 1) != 0 and len(pieces) < n - 1:
             r.v(key_prefix + "/count", "Richardson pieces cover every recorded step", case, observed=dict(pieces=len(pieces), rows=n), expected=">= rows-1")
             return False
